@@ -42,6 +42,8 @@ def make_classes():
         "q": param.Integer(default=2, bounds=(0, 10)),
         # a parameter made of two others: assigning it assigns them
         "pq": param.Composite(attribs=["p", "q"]),
+        # rejects with OSError (not ValueError / TypeError) when the folder does not exist
+        "pth": param.Foldername(default=None),
         # validation of this one has an effect of its own (check_on_set=False adds the value to the objects)
         "sel": param.Selector(objects=[1, 2], check_on_set=False, constant=True),
     })
